@@ -736,6 +736,7 @@ pub fn long_log(plan: &Plan, stats: &mut Stats, log: &mut LogHash, vs: &mut Vec<
     let bound = crate::w_codec::footprint_bound(block_opt.unwrap_or(hcobs::DEFAULT_BLOCK_SIZE).max(70_000), 1);
     let mut got = 0usize;
     let mut max_live = 0usize;
+    let mut content_ok = true;
     loop {
         let item = match sr.next_record_bytes(&mut reader, &judge, block_opt) {
             Ok(x) => x,
@@ -752,10 +753,13 @@ pub fn long_log(plan: &Plan, stats: &mut Stats, log: &mut LogHash, vs: &mut Vec<
             break;
         }
         let want = expected[got];
-        let bytes = iov.flatten().unwrap_or_else(|v| v);
-        if range.start != want.start || range.end != want.end || &bytes != want.decoded.as_ref().unwrap() {
-            push_v(vs, "C06", "C06.content", format!("record {} of the long log at {}..{} differs from the reference ({}..{})", got, range.start, range.end, want.start, want.end));
-            break;
+        // (Keep reading after a mismatch: the footprint is judged on its own.)
+        if content_ok {
+            let bytes = iov.flatten().unwrap_or_else(|v| v);
+            if range.start != want.start || range.end != want.end || &bytes != want.decoded.as_ref().unwrap() {
+                push_v(vs, "C06", "C06.content", format!("record {} of the long log at {}..{} differs from the reference ({}..{})", got, range.start, range.end, want.start, want.end));
+                content_ok = false;
+            }
         }
         got += 1;
         let live = ByteArena::num_live_bytes().saturating_sub(base_bytes).max(peak_in_call.get());
@@ -765,7 +769,7 @@ pub fn long_log(plan: &Plan, stats: &mut Stats, log: &mut LogHash, vs: &mut Vec<
             break;
         }
     }
-    if vs.is_empty() && got != expected.len() {
+    if vs.is_empty() && content_ok && got != expected.len() {
         push_v(vs, "C06", "C06.missing_record", format!("long log: {} of {} records returned", got, expected.len()));
     }
     fault_stats(&reader, stats);
